@@ -52,10 +52,23 @@ Proof.
   unfold apply_prims in *. simpl. rewrite IH. apply apply_prim_length.
 Qed.
 
-(* a primitive only changes its target locations *)
-Lemma apply_prim_frame x p j : ~ In j (prim_target p) -> get (apply_prim x p) j = get x j.
+Lemma apply_prims_app a b x : apply_prims (a ++ b) x = apply_prims b (apply_prims a x).
+Proof. apply fold_left_app. Qed.
+
+Lemma targets_spec j p : targets j p = true <-> In j (prim_target p).
 Proof.
-  destruct p; simpl; intros H.
+  unfold targets. rewrite existsb_exists. split.
+  - intros [x [H E]]. apply Nat.eqb_eq in E. subst; auto.
+  - intros H. exists j. split; auto. apply Nat.eqb_refl.
+Qed.
+
+(* a primitive only changes its target locations *)
+Lemma apply_prim_frame x p j : targets j p = false -> get (apply_prim x p) j = get x j.
+Proof.
+  intros T. assert (H : ~ In j (prim_target p)).
+  { intros C. apply targets_spec in C. congruence. }
+  clear T. destruct p; simpl in *.
+  - rewrite get_setnth. destruct (Nat.eqb i j) eqn:E; [apply Nat.eqb_eq in E; tauto|reflexivity].
   - rewrite get_setnth. destruct (Nat.eqb i j) eqn:E; [apply Nat.eqb_eq in E; tauto|reflexivity].
   - rewrite get_setnth. destruct (Nat.eqb i j) eqn:E; [apply Nat.eqb_eq in E; tauto|reflexivity].
   - destruct (_ && _); auto. rewrite get_setnth.
@@ -65,232 +78,151 @@ Proof.
     destruct (Nat.eqb idst j) eqn:E2; [apply Nat.eqb_eq in E2; tauto|]. reflexivity.
 Qed.
 
+Lemma frame_list j ps : forall x,
+  existsb (targets j) ps = false -> get (apply_prims ps x) j = get x j.
+Proof.
+  induction ps as [|p r IH]; intros x H; [reflexivity|].
+  simpl in H. apply orb_false_iff in H. destruct H as [H1 H2].
+  unfold apply_prims in *. simpl. rewrite (IH _ H2). apply apply_prim_frame; auto.
+Qed.
+
+Lemma last_toucher_none j ps : last_toucher j ps = None -> existsb (targets j) ps = false.
+Proof.
+  induction ps as [|p r IH]; simpl; auto.
+  destruct (last_toucher j r); [discriminate|]. destruct (targets j p); [discriminate|]. auto.
+Qed.
+
+(* (C) the last primitive targeting j is an assignment of v *)
+Lemma last_set j v ps : forall x i,
+  last_toucher j ps = Some (PSet i v) -> (j < length x)%nat -> get (apply_prims ps x) j = v.
+Proof.
+  induction ps as [|p r IH]; intros x i H Hl; [discriminate|].
+  simpl in H. unfold apply_prims in *. simpl fold_left.
+  destruct (last_toucher j r) as [q|] eqn:E.
+  - inversion H; subst q. apply (IH _ i); auto. rewrite apply_prim_length; auto.
+  - destruct (targets j p) eqn:T; [|discriminate]. inversion H; subst p.
+    rewrite (frame_list j r _ (last_toucher_none j r E)).
+    apply targets_spec in T. simpl in T. destruct T as [<-|[]].
+    simpl. rewrite get_setnth, Nat.eqb_refl. simpl.
+    replace (Nat.ltb i (length x)) with true by (symmetry; apply Nat.ltb_lt; auto). reflexivity.
+Qed.
+
+(* (B) only additions target j *)
+Lemma adds_only j ps : forall x,
+  forallb (add_or_other j) ps = true -> (j < length x)%nat ->
+  get (apply_prims ps x) j = get x j + add_sum j ps.
+Proof.
+  induction ps as [|p r IH]; intros x H Hl; [simpl; lia|].
+  simpl in H. apply andb_true_iff in H. destruct H as [Hp Hr].
+  unfold apply_prims in *. simpl fold_left. rewrite (IH _ Hr) by (rewrite apply_prim_length; auto).
+  unfold add_or_other in Hp. destruct (targets j p) eqn:T; simpl in Hp.
+  - destruct p; try discriminate. apply targets_spec in T. simpl in T. destruct T as [<-|[]].
+    simpl. rewrite get_setnth, !Nat.eqb_refl. simpl.
+    replace (Nat.ltb i (length x)) with true by (symmetry; apply Nat.ltb_lt; auto). lia.
+  - rewrite (apply_prim_frame x p j T).
+    assert (E : add_sum j (p :: r) = add_sum j r).
+    { simpl. destruct p; auto. destruct (Nat.eqb i j) eqn:Ei; auto.
+      apply Nat.eqb_eq in Ei. subst i. unfold targets in T. simpl in T. rewrite Nat.eqb_refl in T. discriminate. }
+    rewrite E. reflexivity.
+Qed.
+
+(* (B') exactly one primitive targets j *)
+Lemma single_toucher j q ps : forall x,
+  filter (targets j) ps = [q] ->
+  exists x1, get (apply_prims ps x) j = get (apply_prim x1 q) j /\ get x1 j = get x j /\ length x1 = length x.
+Proof.
+  induction ps as [|p r IH]; intros x H; [discriminate|].
+  simpl in H. unfold apply_prims in *. simpl fold_left.
+  destruct (targets j p) eqn:T.
+  - inversion H as [[Hq Hr]]. subst p. exists x. split; [|split; reflexivity].
+    apply frame_list.
+    clear -Hr. induction r as [|a r IH]; simpl in *; auto.
+    destruct (targets j a); [discriminate|]. auto.
+  - destruct (IH (apply_prim x p) H) as [x1 [A [B C]]].
+    exists x1. split; [exact A|]. split; [rewrite B; apply apply_prim_frame; auto|].
+    rewrite C. apply apply_prim_length.
+Qed.
+
 Section Discipline.
-  Variable P : params.
   Variable s : vec.
 
-  Definition assigns (ps : list prim) (j : nat) : bool :=
-    existsb (fun q => match q with PSet i _ => Nat.eqb j i | _ => false end) ps.
-
-  Definition sum_at (j : nat) (l : list (nat * Z)) : Z :=
-    fold_right (fun kd a => if Nat.eqb (fst kd) j then snd kd + a else a) 0 l.
-
-  Lemma sum_at_app j l1 l2 : sum_at j (l1 ++ l2) = sum_at j l1 + sum_at j l2.
-  Proof. induction l1 as [|a r IH]; simpl; [lia|]. destruct (Nat.eqb (fst a) j); lia. Qed.
-
-  (* ---- undo lists ---- *)
-  Lemma undo_assigned ps : forall x j,
-    forallb (undo_prim_ok P s) ps = true -> is_add P j = false -> length x = length s ->
-    get (apply_prims ps x) j = if assigns ps j then get s j else get x j.
-  Proof.
-    induction ps as [|p r IH]; intros x j Hok Hj Hl; [reflexivity|].
-    simpl in Hok. apply andb_true_iff in Hok. destruct Hok as [Hp Hr].
-    unfold apply_prims in *. simpl fold_left.
-    rewrite (IH (apply_prim x p) j Hr Hj) by (rewrite apply_prim_length; exact Hl).
-    simpl assigns. destruct p; simpl in Hp; try discriminate.
-    - apply andb_true_iff in Hp. destruct Hp as [Hp Hlt]. apply andb_true_iff in Hp. destruct Hp as [_ Hv].
-      apply Z.eqb_eq in Hv. apply Nat.ltb_lt in Hlt.
-      destruct (assigns r j) eqn:Er; [rewrite orb_true_r; reflexivity|]. rewrite orb_false_r.
-      simpl. rewrite get_setnth. rewrite (Nat.eqb_sym j i).
-      destruct (Nat.eqb i j) eqn:E; simpl; auto.
-      apply Nat.eqb_eq in E. subst j.
-      replace (Nat.ltb i (length x)) with true by (symmetry; apply Nat.ltb_lt; lia). exact Hv.
-    - apply andb_true_iff in Hp. destruct Hp as [Hadd _]. simpl.
-      destruct (assigns r j); auto.
-      rewrite get_setnth. destruct (Nat.eqb i j) eqn:E; auto.
-      apply Nat.eqb_eq in E. subst j. congruence.
-  Qed.
-
-  Lemma undo_added ps : forall x j,
-    forallb (undo_prim_ok P s) ps = true -> is_add P j = true -> length x = length s ->
-    get (apply_prims ps x) j = get x j + sum_at j (adds P ps).
-  Proof.
-    induction ps as [|p r IH]; intros x j Hok Hj Hl; [simpl; lia|].
-    simpl in Hok. apply andb_true_iff in Hok. destruct Hok as [Hp Hr].
-    unfold apply_prims in *. simpl fold_left.
-    rewrite (IH (apply_prim x p) j Hr Hj) by (rewrite apply_prim_length; exact Hl).
-    change (adds P (p :: r)) with
-      ((match p with PAdd i d => if is_add P i then [(i, d)] else [] | _ => [] end) ++ adds P r).
-    rewrite sum_at_app.
-    destruct p; simpl in Hp; try discriminate.
-    - apply andb_true_iff in Hp. destruct Hp as [Hp _]. apply andb_true_iff in Hp. destruct Hp as [Hna _].
-      simpl. rewrite get_setnth. destruct (Nat.eqb i j) eqn:E; simpl; [|lia].
-      apply Nat.eqb_eq in E. subst j. rewrite Hj in Hna. discriminate.
-    - apply andb_true_iff in Hp. destruct Hp as [Hadd Hlt]. apply Nat.ltb_lt in Hlt.
-      simpl apply_prim. rewrite Hadd. simpl sum_at. rewrite get_setnth.
-      destruct (Nat.eqb i j) eqn:E; simpl; [|lia].
-      replace (Nat.ltb i (length x)) with true by (symmetry; apply Nat.ltb_lt; lia).
-      apply Nat.eqb_eq in E. subst j. lia.
-  Qed.
-
-  (* ---- do lists ---- *)
-  Lemma do_untouched undo ps : forall x j,
-    forallb (do_prim_ok P s undo) ps = true -> is_add P j = false -> assigns undo j = false ->
-    get (apply_prims ps x) j = get x j.
-  Proof.
-    induction ps as [|p r IH]; intros x j Hok Hj Ha; [reflexivity|].
-    simpl in Hok. apply andb_true_iff in Hok. destruct Hok as [Hp Hr].
-    unfold apply_prims in *. simpl fold_left. rewrite (IH _ j Hr Hj Ha).
-    apply apply_prim_frame. intros Hin.
-    assert (X : forall t, In t (prim_target p) -> t = j ->
-                is_add P t = true \/
-                existsb (fun q => match q with PSet j0 _ => Nat.eqb t j0 | _ => false end) undo = true -> False).
-    { intros t _ -> [C|C]; [congruence|]. unfold assigns in Ha. congruence. }
-    destruct p; simpl in Hp, Hin.
-    - destruct Hin as [<-|[]]. exfalso.
-      (* PSet in a do list *)
-      rewrite andb_true_r in Hp. apply andb_true_iff in Hp. destruct Hp as [_ Hp].
-      unfold assigns in Ha. congruence.
-    - destruct Hin as [<-|[]]. destruct (is_add P i) eqn:Ei; [congruence|].
-      unfold assigns in Ha. congruence.
-    - destruct Hin as [<-|[]]. rewrite andb_true_r in Hp. apply andb_true_iff in Hp. destruct Hp as [_ Hp].
-      unfold assigns in Ha. congruence.
-    - rewrite andb_true_r in Hp. apply andb_true_iff in Hp. destruct Hp as [H1 H2].
-      apply andb_true_iff in H1. destruct H1 as [_ H1]. apply andb_true_iff in H2. destruct H2 as [_ H2].
-      unfold assigns in Ha. destruct Hin as [<-|[<-|[]]]; congruence.
-  Qed.
-
-  Lemma do_added undo ps : forall x j,
-    forallb (do_prim_ok P s undo) ps = true -> is_add P j = true -> length x = length s ->
-    get (apply_prims ps x) j = get x j + sum_at j (adds P ps).
-  Proof.
-    induction ps as [|p r IH]; intros x j Hok Hj Hl; [simpl; lia|].
-    simpl in Hok. apply andb_true_iff in Hok. destruct Hok as [Hp Hr].
-    unfold apply_prims in *. simpl fold_left.
-    rewrite (IH (apply_prim x p) j Hr Hj) by (rewrite apply_prim_length; exact Hl).
-    change (adds P (p :: r)) with
-      ((match p with PAdd i d => if is_add P i then [(i, d)] else [] | _ => [] end) ++ adds P r).
-    rewrite sum_at_app.
-    assert (Fr : ~ In j (prim_target p) -> get (apply_prim x p) j = get x j) by apply apply_prim_frame.
-    destruct p; simpl in Hp.
-    - rewrite andb_true_r in Hp. apply andb_true_iff in Hp. destruct Hp as [Hna _].
-      simpl sum_at. rewrite Fr; [lia|]. simpl. intros [<-|[]]. rewrite Hj in Hna. discriminate.
-    - destruct (is_add P i) eqn:Ei.
-      + apply Nat.ltb_lt in Hp. simpl apply_prim. simpl sum_at. rewrite get_setnth.
-        destruct (Nat.eqb i j) eqn:E; simpl; [|lia].
-        replace (Nat.ltb i (length x)) with true by (symmetry; apply Nat.ltb_lt; lia).
-        apply Nat.eqb_eq in E. subst j. lia.
-      + simpl sum_at. rewrite Fr; [lia|]. simpl. intros [<-|[]]. congruence.
-    - rewrite andb_true_r in Hp. apply andb_true_iff in Hp. destruct Hp as [Hna _].
-      simpl sum_at. rewrite Fr; [lia|]. simpl. intros [<-|[]]. rewrite Hj in Hna. discriminate.
-    - rewrite andb_true_r in Hp. apply andb_true_iff in Hp. destruct Hp as [H1 H2].
-      apply andb_true_iff in H1. destruct H1 as [H1 _]. apply andb_true_iff in H2. destruct H2 as [H2 _].
-      simpl sum_at. rewrite Fr; [lia|]. simpl. intros [<-|[<-|[]]].
-      + rewrite Hj in H1. discriminate.
-      + rewrite Hj in H2. discriminate.
-  Qed.
-
-  (* ---- lists of changes ---- *)
   Definition dos (cs : list dchg) (x : vec) : vec := do_all (map interp cs) x.
   Definition undos (cs : list dchg) (x : vec) : vec := undo_fwd (map interp cs) x.
 
-  Lemma dos_cons c cs x : dos (c :: cs) x = dos cs (apply_prims (d_do c) x).
-  Proof. reflexivity. Qed.
-  Lemma undos_cons c cs x : undos (c :: cs) x = undos cs (apply_prims (d_undo c) x).
-  Proof. reflexivity. Qed.
-
-  Lemma dos_length cs : forall x, length (dos cs x) = length x.
+  Lemma dos_flat cs : forall x, dos cs x = apply_prims (all_dos cs) x.
   Proof.
-    induction cs as [|c r IH]; intros x; [reflexivity|]. rewrite dos_cons, IH. apply apply_prims_length.
-  Qed.
-  Lemma undos_length cs : forall x, length (undos cs x) = length x.
-  Proof.
-    induction cs as [|c r IH]; intros x; [reflexivity|]. rewrite undos_cons, IH. apply apply_prims_length.
+    induction cs as [|c r IH]; intros x; [reflexivity|].
+    unfold all_dos. simpl flat_map. rewrite apply_prims_app. fold (all_dos r). rewrite <- IH. reflexivity.
   Qed.
 
-  Definition total_adds (cs : list dchg) (j : nat) : Z :=
-    fold_right (fun c a => sum_at j (adds P (d_do c)) + a) 0 cs.
-
-  Lemma disc_parts c : disciplined P s c = true ->
-    forallb (undo_prim_ok P s) (d_undo c) = true /\
-    forallb (do_prim_ok P s (d_undo c)) (d_do c) = true /\
-    list_eqb pair_eqb (adds P (d_undo c)) (map (fun kd => (fst kd, - snd kd)) (adds P (d_do c))) = true.
+  Lemma undos_flat cs : forall x, undos cs x = apply_prims (all_undos cs) x.
   Proof.
-    unfold disciplined. intros H. apply andb_true_iff in H. destruct H as [H H3].
-    apply andb_true_iff in H. tauto.
+    induction cs as [|c r IH]; intros x; [reflexivity|].
+    unfold all_undos. simpl flat_map. rewrite apply_prims_app. fold (all_undos r). rewrite <- IH. reflexivity.
   Qed.
 
-  Lemma list_eqb_sum j : forall a b,
-    list_eqb pair_eqb a (map (fun kd => (fst kd, - snd kd)) b) = true -> sum_at j a = - sum_at j b.
+  (* change_discipline, coordinate by coordinate *)
+  Lemma coord_restored cs j :
+    coord_ok s cs j = true -> (j < length s)%nat -> get (undos cs (dos cs s)) j = get s j.
   Proof.
-    induction a as [|x a IH]; intros [|y b] H; simpl in *; try discriminate; [lia|].
-    apply andb_true_iff in H. destruct H as [H1 H2]. unfold pair_eqb in H1. simpl in H1.
-    apply andb_true_iff in H1. destruct H1 as [Hf Hs]. apply Nat.eqb_eq in Hf. apply Z.eqb_eq in Hs.
-    rewrite (IH b H2), Hf. destruct (Nat.eqb (fst y) j); lia.
+    intros H Hl. rewrite undos_flat, dos_flat.
+    set (D := all_dos cs) in *. set (U := all_undos cs) in *.
+    assert (HlD : (j < length (apply_prims D s))%nat) by (rewrite apply_prims_length; exact Hl).
+    unfold coord_ok in H. fold D U in H.
+    apply orb_true_iff in H. destruct H as [H|H4].
+    apply orb_true_iff in H. destruct H as [H|H3].
+    apply orb_true_iff in H. destruct H as [H1|H2].
+    - (* A *) apply andb_true_iff in H1. destruct H1 as [A B].
+      apply negb_true_iff in A. apply negb_true_iff in B.
+      rewrite (frame_list j U _ B), (frame_list j D _ A). reflexivity.
+    - (* C *) destruct (last_toucher j U) as [q|] eqn:E; [|discriminate].
+      destruct q; try discriminate. apply Z.eqb_eq in H2. subst v.
+      apply (last_set j _ U _ i E HlD).
+    - (* B *) apply andb_true_iff in H3. destruct H3 as [H3 S0]. apply andb_true_iff in H3. destruct H3 as [AD AU].
+      apply Z.eqb_eq in S0.
+      rewrite (adds_only j U _ AU HlD), (adds_only j D _ AD Hl). lia.
+    - (* B' *) destruct (filter (targets j) D) as [|qd ld] eqn:FD; [discriminate|].
+      destruct qd; try discriminate. destruct ld; [|discriminate].
+      destruct (filter (targets j) U) as [|qu lu] eqn:FU; [discriminate|].
+      destruct qu; try discriminate. destruct lu; [|discriminate].
+      apply andb_true_iff in H4. destruct H4 as [H4 Hs]. apply andb_true_iff in H4. destruct H4 as [Hpq Hp].
+      apply Z.eqb_eq in Hpq. apply Z.leb_le in Hp. apply Z.leb_le in Hs. subst p.
+      assert (Ti : i = j).
+      { assert (T : targets j (PAdd i d) = true).
+        { assert (In (PAdd i d) (filter (targets j) D)) by (rewrite FD; left; reflexivity).
+          apply filter_In in H. tauto. }
+        apply targets_spec in T. simpl in T. destruct T as [T|[]]; auto. }
+      assert (Ti0 : i0 = j).
+      { assert (T : targets j (PSubSat i0 d) = true).
+        { assert (In (PSubSat i0 d) (filter (targets j) U)) by (rewrite FU; left; reflexivity).
+          apply filter_In in H. tauto. }
+        apply targets_spec in T. simpl in T. destruct T as [T|[]]; auto. }
+      subst i i0.
+      destruct (single_toucher j _ D s FD) as [x1 [A1 [B1 C1]]].
+      destruct (single_toucher j _ U (apply_prims D s) FU) as [x2 [A2 [B2 C2]]].
+      rewrite A2. simpl. rewrite get_setnth, Nat.eqb_refl. simpl.
+      replace (Nat.ltb j (length x2)) with true
+        by (symmetry; apply Nat.ltb_lt; rewrite C2, apply_prims_length; exact Hl).
+      rewrite B2, A1. simpl. rewrite get_setnth, Nat.eqb_refl. simpl.
+      replace (Nat.ltb j (length x1)) with true by (symmetry; apply Nat.ltb_lt; rewrite C1; exact Hl).
+      rewrite B1. destruct (get s j + d <? d) eqn:E; [apply Z.ltb_lt in E; lia|lia].
   Qed.
 
-  Lemma dos_added cs : forall x j,
-    forallb (disciplined P s) cs = true -> is_add P j = true -> length x = length s ->
-    get (dos cs x) j = get x j + total_adds cs j.
-  Proof.
-    induction cs as [|c r IH]; intros x j H Hj Hl; [simpl; unfold dos; simpl; lia|].
-    simpl in H. apply andb_true_iff in H. destruct H as [Hc Hr].
-    destruct (disc_parts c Hc) as [_ [Hd _]].
-    rewrite dos_cons, (IH _ j Hr Hj) by (rewrite apply_prims_length; exact Hl).
-    rewrite (do_added _ _ _ _ Hd Hj Hl). simpl. lia.
-  Qed.
+  Lemma dos_length cs x : length (dos cs x) = length x.
+  Proof. rewrite dos_flat. apply apply_prims_length. Qed.
+  Lemma undos_length cs x : length (undos cs x) = length x.
+  Proof. rewrite undos_flat. apply apply_prims_length. Qed.
 
-  Lemma undos_added cs : forall x j,
-    forallb (disciplined P s) cs = true -> is_add P j = true -> length x = length s ->
-    get (undos cs x) j = get x j - total_adds cs j.
-  Proof.
-    induction cs as [|c r IH]; intros x j H Hj Hl; [simpl; unfold undos; simpl; lia|].
-    simpl in H. apply andb_true_iff in H. destruct H as [Hc Hr].
-    destruct (disc_parts c Hc) as [Hu [_ He]].
-    rewrite undos_cons, (IH _ j Hr Hj) by (rewrite apply_prims_length; exact Hl).
-    rewrite (undo_added _ _ _ Hu Hj Hl), (list_eqb_sum j _ _ He). simpl. lia.
-  Qed.
-
-  Definition any_assigns (cs : list dchg) (j : nat) : bool := existsb (fun c => assigns (d_undo c) j) cs.
-
-  Lemma dos_untouched cs : forall x j,
-    forallb (disciplined P s) cs = true -> is_add P j = false -> any_assigns cs j = false ->
-    get (dos cs x) j = get x j.
-  Proof.
-    induction cs as [|c r IH]; intros x j H Hj Ha; [reflexivity|].
-    simpl in H. apply andb_true_iff in H. destruct H as [Hc Hr].
-    simpl in Ha. apply orb_false_iff in Ha. destruct Ha as [Ha1 Ha2].
-    destruct (disc_parts c Hc) as [_ [Hd _]].
-    rewrite dos_cons, (IH _ j Hr Hj Ha2). apply (do_untouched _ _ _ _ Hd Hj Ha1).
-  Qed.
-
-  Lemma undos_keep cs : forall x j,
-    forallb (disciplined P s) cs = true -> is_add P j = false -> length x = length s ->
-    get x j = get s j -> get (undos cs x) j = get s j.
-  Proof.
-    induction cs as [|c r IH]; intros x j H Hj Hl Hx; [exact Hx|].
-    simpl in H. apply andb_true_iff in H. destruct H as [Hc Hr].
-    destruct (disc_parts c Hc) as [Hu _].
-    rewrite undos_cons. apply IH; auto; [rewrite apply_prims_length; exact Hl|].
-    rewrite (undo_assigned _ _ _ Hu Hj Hl). destruct (assigns (d_undo c) j); auto.
-  Qed.
-
-  Lemma undos_set cs : forall x j,
-    forallb (disciplined P s) cs = true -> is_add P j = false -> length x = length s ->
-    any_assigns cs j = true -> get (undos cs x) j = get s j.
-  Proof.
-    induction cs as [|c r IH]; intros x j H Hj Hl Ha; [discriminate|].
-    simpl in H. apply andb_true_iff in H. destruct H as [Hc Hr].
-    destruct (disc_parts c Hc) as [Hu _].
-    rewrite undos_cons. simpl in Ha.
-    destruct (assigns (d_undo c) j) eqn:E.
-    - apply undos_keep; auto; [rewrite apply_prims_length; exact Hl|].
-      rewrite (undo_assigned _ _ _ Hu Hj Hl), E. reflexivity.
-    - apply IH; auto. rewrite apply_prims_length; exact Hl.
-  Qed.
-
-  (* change_discipline *)
   Theorem change_discipline cs :
-    forallb (disciplined P s) cs = true -> undos cs (dos cs s) = s.
+    changes_disciplined s cs = true -> undos cs (dos cs s) = s.
   Proof.
     intros H.
     assert (Hl : length (undos cs (dos cs s)) = length s) by (rewrite undos_length, dos_length; reflexivity).
-    apply (nth_ext _ _ 0 0 Hl). intros j _. fold (get (undos cs (dos cs s)) j). fold (get s j).
-    destruct (is_add P j) eqn:Hj.
-    - rewrite undos_added, dos_added; auto; [lia|apply dos_length].
-    - destruct (any_assigns cs j) eqn:Ha.
-      + apply undos_set; auto. apply dos_length.
-      + apply undos_keep; auto; [apply dos_length|]. apply dos_untouched; auto.
+    apply (nth_ext _ _ 0 0 Hl). intros j Hj. rewrite Hl in Hj.
+    fold (get (undos cs (dos cs s)) j). fold (get s j).
+    apply coord_restored; auto.
+    unfold changes_disciplined in H. rewrite forallb_forall in H. apply H.
+    apply in_seq. lia.
   Qed.
 
 End Discipline.
@@ -403,7 +335,7 @@ Section Rollback.
     { simpl. split; [exact H32|]. split; [lia|]. split.
       - destruct (h_cached h1); auto.
       - unfold good_entry, hc_rollback, hc_commit, undo_order. simpl. rewrite <- Ss.
-        apply (change_discipline P s (block_changes P s b)). exact Hd. }
+        apply (change_discipline s (block_changes P s b)). exact Hd. }
     destruct (@step_inv vec s0 g1 (h1, s) (OCommit hb) I1 Pre) as [st2 [E I2]].
     change (step (OCommit hb) (h1, s)) with (commit hb (h1, s)) in E.
     destruct (commit_eq hb h1 s Ht1) as [ch [s' Ec]]. rewrite Ec in E. simpl in E.
@@ -555,7 +487,7 @@ Definition empty_blocks (from : Z) (n : nat) : list block :=
    then accepted and its rollback (cancelHeight = 0, removal from the canceled
    set) does not restore the state.  Slot 0 registers at height 10, is
    canceled at 15 (= activation block) and again at 17. *)
-Definition wP : params := Params 2 3 3 3 1000000 100 720.
+Definition wP : params := Params 2 3 3 3 1000000 100 720 0 0.
 Definition w_blocks1 : list block :=
   [Block 10 1010 [TRegister 0 0 500000000000 0]] ++ empty_blocks 11 4 ++
   [Block 15 1015 [TCancel 0]; Block 16 1016 []].
@@ -571,7 +503,7 @@ Proof. repeat split; vm_compute; reflexivity. Qed.
    top-up / cancel / deposit release / deposit return / activation and the
    irreversibility bookkeeping satisfies the hypotheses, and rolling back its
    last 6 blocks agrees (computed). *)
-Definition dP : params := Params 3 6 8 3 12 100 720.
+Definition dP : params := Params 3 6 8 3 12 100 720 50000000000 20000000000.
 Definition d_blocks1 : list block :=
   [Block 10 1010 [TRegister 0 0 500000000000 0; TRegister 1 1 500100000000 1];
    Block 11 1011 [TUpdate 0 2];
@@ -595,3 +527,53 @@ Lemma demo_blocks_ok :
   | None => False
   end.
 Proof. split; [vm_compute; reflexivity|]. split; [vm_compute; reflexivity|]. vm_compute. repeat split. Qed.
+
+(* ---- inactive / illegal producers: what the discipline excludes (replayed on
+   the real code by the corpus traces of harness/cmd/c21) ---- *)
+Definition iPar : params := Params 2 3 3 3 1000000 100 720 500 200.
+
+(* producer 0 registers at 10 (active at 15), is set inactive at 17, asks for
+   activation at 18 (active again at 23) *)
+Definition i_prefix : list block :=
+  [Block 10 1010 [TRegister 0 0 500000000000 0]] ++ empty_blocks 11 6 ++
+  [Block 17 1017 [TInactive 0]; Block 18 1018 [TActivate 0]] ++ empty_blocks 19 7.
+
+(* the first inactivity and its reactivation are disciplined and roll back
+   exactly (computed for the last 9 blocks) *)
+Lemma inactive_first_time_ok :
+  blocks_okb iPar i_prefix (init iPar) = true /\
+  rollback_agrees iPar (firstn 7 i_prefix) (skipn 7 i_prefix) = true /\
+  match process_all iPar i_prefix (init iPar) with
+  | Some st => get (snd st) (iP 0 fSt) = stActive /\ get (snd st) (iP 0 fPenalty) = 500 /\
+               get (snd st) (iP 0 fInactiveSince) = 17 /\ get (snd st) (iP 0 fActReq) = 18
+  | None => False
+  end.
+Proof. split; [vm_compute; reflexivity|]. split; [vm_compute; reflexivity|]. vm_compute. repeat split. Qed.
+
+(* revertSettingInactiveProducer writes constants (inactiveSince = 0,
+   activateRequestHeight = MaxUint32, removal from EmergencyInactiveArbiters):
+   the second inactivity of the producer does not roll back exactly *)
+Lemma inactive_again_refuted :
+  rollback_agrees iPar i_prefix [Block 26 1026 [TInactive 0]] = false /\
+  blocks_okb iPar (i_prefix ++ [Block 26 1026 [TInactive 0]]) (init iPar) = false.
+Proof. split; vm_compute; reflexivity. Qed.
+
+(* illegal evidence (penalty += , undo penalty = ori) and emergency inactivity
+   (penalty +=, undo saturating -=) on one producer in one block: exact when
+   the illegal evidence comes last, the penalty is lost (500 -> 0) when the
+   inactivity comes last.  (Both blocks also show the constants above, so the
+   comparison is on the penalty coordinate.) *)
+Definition penalty_after_rollback (txs : list tx) : option Z :=
+  match process_all iPar i_prefix (init iPar) with
+  | Some st1 =>
+      match rollback (Z.of_N (h_height (fst st1))) (process_all iPar [Block 26 1026 txs] st1) with
+      | Some st' => Some (get (snd st') (iP 0 fPenalty))
+      | None => None
+      end
+  | None => None
+  end.
+
+Lemma penalty_mix_refuted :
+  penalty_after_rollback [TInactive 0; TIllegal 0] = Some 500 /\
+  penalty_after_rollback [TIllegal 0; TInactive 0] = Some 0.
+Proof. split; vm_compute; reflexivity. Qed.
